@@ -56,7 +56,7 @@ type Schema struct {
 	AfterFind                 bool
 	err                       error
 	initialized               chan struct{}
-	relatedInitialized        uint32 // 1 once every schema reachable through relationships is initialized
+	relatedInitialized        *uint32 // 1 once every schema reachable through relationships is initialized; behind a pointer because methods with a value receiver copy the schema
 	namer                     Namer
 	cacheStore                *sync.Map
 }
@@ -135,7 +135,7 @@ func ParseWithSpecialTableName(dest interface{}, cacheStore *sync.Map, namer Nam
 
 // waitForRelated waits until every schema reachable through relationships is initialized
 func (schema *Schema) waitForRelated() {
-	if atomic.LoadUint32(&schema.relatedInitialized) == 1 {
+	if schema.relatedInitialized != nil && atomic.LoadUint32(schema.relatedInitialized) == 1 {
 		return
 	}
 
@@ -159,7 +159,9 @@ func (schema *Schema) waitForRelated() {
 		}
 		s.Relationships.Mux.RUnlock()
 	}
-	atomic.StoreUint32(&schema.relatedInitialized, 1)
+	if schema.relatedInitialized != nil {
+		atomic.StoreUint32(schema.relatedInitialized, 1)
+	}
 }
 
 func parseWithSpecialTableName(dest interface{}, cacheStore *sync.Map, namer Namer, specialTableName string) (*Schema, error) {
@@ -231,6 +233,8 @@ func parseWithSpecialTableName(dest interface{}, cacheStore *sync.Map, namer Nam
 		cacheStore:       cacheStore,
 		namer:            namer,
 		initialized:      make(chan struct{}),
+
+		relatedInitialized: new(uint32),
 	}
 	// When the schema initialization is completed, the channel will be closed
 	defer close(schema.initialized)
